@@ -25,6 +25,7 @@ Ent == [kind : Kinds, perm : {1, 2}, own : {0, 1}, val : {1, 2, 3}, c : Child \c
 WfEnt(e) == /\ (e.c # NoChild => e.kind = "dir")
             /\ (e.kind = "dir" => e.val = 1)                                  \* directories carry no value
             /\ (e.kind \in {"slink", "dev"} => e.val \in {1, 2})
+            /\ (e.kind = "slink" => e.perm = 1)                                  \* the packers store every symbolic link with mode 0777
 BEnt == [kind |-> "file", perm |-> 1, own |-> 0, val |-> 1, c |-> NoChild]       \* the second name, when present, is this fixed file
 Trees == [root : [perm : {1, 2}, own : {0}],
           ents : UNION {{f \in [S -> {e \in Ent : WfEnt(e)}] : "b" \in S => f["b"] = BEnt} : S \in SUBSET Names}]
